@@ -48,6 +48,7 @@ def run(ctx, rep):
     walk_rule(f, rep, 'C20.8')
     used_span_rule(f, rep, 'C20.9')
     cli_arith_rule(ctx.bin, rep, 'C20.10')
+    used_kind_rule(f, rep, 'C20.11')
 
 
 def format_rounding_rule(f, rep, rid):
@@ -194,6 +195,77 @@ def walk_rule(f, rep, rid):
                               'virtual size is not a cluster multiple is skipped, check() reports its data cluster as leaked (or '
                               'misses a bad mapping there)' % (short(b.path), why))
     rep.floor('guest walks of check()', n, 2)
+
+
+def used_kind_rule(f, rep, rid):
+    """The in-use set of check() receives host clusters of this image only.  `Mapping::cluster_offset` of a Backing mapping
+    is the guest offset to read from the backing image, not a host cluster: marking it hides a leaked cluster with the same
+    index.  Decided by engine F on the routine that feeds the set, with the mapping returned by get_mapping forced to each
+    kind in turn: the call that marks a cluster is unreachable for a Backing mapping (and reachable for DataFile, which keeps
+    the rule from passing on a routine that marks nothing)."""
+    from ..absint import AbsInt
+    rep.rule(rid, 'check(): no cluster is marked in use for a Backing mapping (its offset is a guest offset of the backing image)')
+    ms = f.adts.get('meta::l2::MappingSource')
+    mp = f.adts.get('meta::l2::Mapping')
+    if ms is None or mp is None:
+        raise AnalysisError('MappingSource / Mapping not found')
+    vidx = {v['n']: i for i, v in enumerate(ms['variants'])}
+    fl = [x['n'] for x in mp['variants'][0]['fields']]
+    if fl[0] != 'source' or 'Backing' not in vidx or 'DataFile' not in vidx:
+        raise AnalysisError('Mapping layout changed: %s' % fl)
+    MARK = '::add_used_cluster_to_set'
+    bodies = [b for b in f.body_list if b.is_coroutine and '::tests::' not in b.path
+              and any((t.get('fn') or '').endswith(MARK) for _bi, t in b.calls())
+              and any(any(fu.kind == 'async_fn' and fu.path.endswith('::get_mapping') for fu in _futs(f, t)) for _bi, t in b.calls()
+                      if (t.get('fn') or '').endswith('Future::poll'))]
+    rep.floor('routines of check() that mark mapped clusters in use', len(bodies), 1)
+    for b in bodies:
+        res = {}
+        for V in ('Backing', 'DataFile'):
+            ai = AbsInt(f)
+            hit = set()
+            cnt = [0]
+
+            def poll(ai_, st, frame, b_, bi, t, args, V=V, cnt=cnt):
+                if frame[0] is not None or not any(fu.kind == 'async_fn' and fu.path.endswith('::get_mapping') for fu in _futs(f, t)):
+                    return None
+                cnt[0] += 1
+                src = ('agg', 'meta::l2::MappingSource', vidx[V], ())
+                rest = tuple(('u', ('forced', cnt[0], n), 'bool' if n == 'copied' else None) for n in fl[1:])
+                m = ('agg', 'meta::l2::Mapping', 0, (src,) + rest)
+                return ('opt', 'Poll', ('opt', 'Result', m, ('c', 1)), ('c', 1))
+
+            def seen(ai_, st, frame, b_, bi, t, args, hit=hit):
+                hit.add((b_.path, bi))
+                return None
+            ai.hooks['Future::poll'] = poll
+            ai.hooks[MARK] = seen
+            ai.analyze(b.path)
+            res[V] = (hit, cnt[0])
+        me = short(b.path)
+        if not res['DataFile'][1]:
+            raise AnalysisError('%s: the await of get_mapping was not reached by engine F' % me)
+        if not res['DataFile'][0]:
+            raise AnalysisError('%s: marking is unreachable even for a DataFile mapping (the forced mapping is not what the routine tests)' % me)
+        bad = res['Backing'][0]
+        rep.ob(rid, 'marking in %s under a Backing mapping' % me, not bad,
+               'unreachable' if not bad else 'reachable at %s' % sorted(f.body(p).where(bi) for p, bi in bad)[:2])
+        if bad:
+            p0, bi0 = sorted(bad)[0]
+            rep.violation(rid, '%s:%s' % (rid, me), f.body(p0).where(bi0),
+                          '%s marks a cluster in use for a Backing mapping: the offset of such a mapping is the guest offset to '
+                          'read from the backing image, so the host cluster with the same index counts as referenced and a leaked '
+                          'cluster at that index is accepted by check()' % me)
+
+
+def _futs(f, t):
+    from ..interp import Program
+    if not hasattr(f, '_p20'):
+        f._p20 = Program(f)
+    try:
+        return f._p20.futs(t['a'][0], ()) if t.get('a') else []
+    except Exception:
+        return []
 
 
 def used_span_rule(f, rep, rid):
